@@ -429,13 +429,16 @@ func (w *World) subRefDecls() string {
 			sb.WriteString(fmt.Sprintf("(declare-fun %s (Int) Int)\n", fn))
 			sb.WriteString(fmt.Sprintf("(declare-fun %s!inv (Int) Int)\n", fn))
 			// injective, never nil, never an ordinary allocated address (those are > 0): sub-objects are negative
-			sb.WriteString(fmt.Sprintf("(assert (forall ((r Int)) (! (and (= (%s!inv (%s r)) r) (< (%s r) 0) (= (subtag! (%s r)) %d)) :pattern ((%s r)))))\n", fn, fn, fn, fn, k, fn))
+			sb.WriteString(fmt.Sprintf("(assert (forall ((r Int)) (! (and (= (%s!inv (%s r)) r) (< (%s r) 0) (= (subtag! (%s r)) %d) (= (root! (%s r)) (root! r))) :pattern ((%s r)))))\n", fn, fn, fn, fn, k, fn, fn))
 		}
 	}
+	// root!(a): the allocated object an address belongs to (a itself for ordinary
+	// addresses, the enclosing object for sub-object addresses)
+	root := "(declare-fun root! (Int) Int)\n(assert (forall ((r Int)) (! (=> (>= r 0) (= (root! r) r)) :pattern ((root! r)))))\n"
 	if k > 0 {
-		return "(declare-fun subtag! (Int) Int)\n" + sb.String()
+		return root + "(declare-fun subtag! (Int) Int)\n" + sb.String()
 	}
-	return ""
+	return root
 }
 
 // implementsFacts states, for every interface type used in a type assertion,
@@ -642,6 +645,12 @@ func pruneDecls(w *World, text string) string {
 	}
 	keep := make([]bool, len(units))
 	body := rest
+	for k, u := range units {
+		if u.syms[0] == "Slice" || u.syms[0] == "Iface" || u.syms[0] == "io.EOF!" || u.syms[0] == "subtag!" {
+			keep[k] = true
+			body += "\n" + strings.Join(u.lines, "\n")
+		}
+	}
 	changed := true
 	for changed {
 		changed = false
